@@ -311,7 +311,98 @@ func Or(a, b *Term) *Term {
 	if a == b {
 		return a
 	}
+	if (a.op == OpZExt || a.op == OpConcat) && (b.op == OpZExt || b.op == OpConcat) {
+		if m := orMerge(a, b); m != nil {
+			return m
+		}
+	}
 	return mkbv(OpOr, a.w, a, b)
+}
+
+// bit segments of a term, most significant first; t == nil: zeros
+type bitSeg struct {
+	t *Term
+	w int
+}
+
+func bitSegs(t *Term, out []bitSeg) []bitSeg {
+	switch t.op {
+	case OpConst:
+		if t.val == 0 {
+			return append(out, bitSeg{nil, int(t.w)})
+		}
+	case OpZExt:
+		out = append(out, bitSeg{nil, int(t.w) - int(t.args[0].w)})
+		return bitSegs(t.args[0], out)
+	case OpConcat:
+		out = bitSegs(t.args[0], out)
+		return bitSegs(t.args[1], out)
+	}
+	return append(out, bitSeg{t, int(t.w)})
+}
+
+// orMerge: a | b where, bit range by bit range, at most one side is not zero
+// (bytes shifted into place and or-ed together): the concatenation of the
+// non-zero pieces. nil if the sides overlap.
+func orMerge(a, b *Term) *Term {
+	sa, sb := bitSegs(a, nil), bitSegs(b, nil)
+	var pieces []bitSeg
+	i, j := 0, 0
+	for i < len(sa) && j < len(sb) {
+		x, y := sa[i], sb[j]
+		w := x.w
+		if y.w < w {
+			w = y.w
+		}
+		take := func(s *bitSeg) bitSeg {
+			// top w bits of s; s keeps the rest
+			if s.w == w {
+				r := *s
+				s.w = 0
+				return r
+			}
+			var top *Term
+			if s.t != nil {
+				top = Extract(s.t, s.w-1, s.w-w)
+				s.t = Extract(s.t, s.w-w-1, 0)
+			}
+			s.w -= w
+			return bitSeg{top, w}
+		}
+		px, py := take(&sa[i]), take(&sb[j])
+		switch {
+		case px.t == nil:
+			pieces = append(pieces, py)
+		case py.t == nil:
+			pieces = append(pieces, px)
+		default:
+			return nil
+		}
+		if sa[i].w == 0 {
+			i++
+		}
+		if sb[j].w == 0 {
+			j++
+		}
+	}
+	// fold from the least significant piece so that neighbouring extracts of one
+	// term fuse before the zero prefix is added
+	var res *Term
+	for k := len(pieces) - 1; k >= 0; k-- {
+		t := pieces[k].t
+		if t == nil {
+			t = Const(pieces[k].w, 0)
+		}
+		if res == nil {
+			res = t
+		} else {
+			res = Concat(t, res)
+		}
+	}
+	if res == nil || res.w != a.w {
+		return nil
+	}
+	return res
 }
 
 func Xor(a, b *Term) *Term {
@@ -570,6 +661,15 @@ func Concat(hi, lo *Term) *Term {
 		lh, ll := int(lo.val>>8), int(lo.val&0xff)
 		if hl == lh+1 {
 			return Extract(hi.args[0], hh, ll)
+		}
+	}
+	// concat(extract(x,h,l), low l bits of x in whatever form the simplifier
+	// gives them) = extract(x,h,0)
+	if hi.op == OpExtract {
+		x := hi.args[0]
+		hh, hl := int(hi.val>>8), int(hi.val&0xff)
+		if hl > 0 && hl == int(lo.w) && Extract(x, hl-1, 0) == lo {
+			return Extract(x, hh, 0)
 		}
 	}
 	return mkbv(OpConcat, uint8(w), hi, lo)
